@@ -3,6 +3,7 @@ use crate::core::{CaseOut, Run, Verdict};
 pub mod c01;
 pub mod c02;
 pub mod c03;
+pub mod c05;
 pub mod c06;
 pub mod c08;
 pub mod fmt;
@@ -12,6 +13,7 @@ pub fn run(run: &Run) -> bool {
 		"C01" => c01::run(run),
 		"C02" => c02::run(run),
 		"C03" => c03::run(run),
+		"C05" => c05::run(run),
 		"C06" => c06::run(run),
 		"C08" => c08::run(run),
 		"C19" => fmt::run_c19(run),
@@ -26,6 +28,7 @@ fn replay_case(run: &Run, prop: &str, stage: &str, tape: Option<&[u16]>, v: &ser
 		"C01" => c01::replay(run, stage, tape, v),
 		"C02" => c02::replay(run, stage, tape, v),
 		"C03" => c03::replay(run, stage, tape, v),
+		"C05" => c05::replay(run, stage, tape, v),
 		"C06" => c06::replay(run, stage, tape, v),
 		"C08" => c08::replay(run, stage, tape, v),
 		"C19" | "C20" => fmt::replay(run, prop, stage, tape, v),
